@@ -258,8 +258,8 @@ impl Check for C15 {
     }
     fn cases(&self, tier: Tier) -> u64 {
         match tier {
-            Tier::Quick => 100_000,
-            Tier::Thorough => 4_000_000,
+            Tier::Quick => 1_000_000,
+            Tier::Thorough => 30_000_000,
         }
     }
     fn enumerate(&self, _tier: Tier, shard: u64, _n: u64, emit: &mut dyn FnMut(&[u8]) -> bool) {
